@@ -40,7 +40,7 @@ pub fn scenarios_for(prop: &str, quick: bool) -> Vec<Scenario> {
         v.extend(scenarios::grid(true));
     } else {
         // thorough: the property's own families first, then every other scenario of the tier
-        // (incl. the generated grid to depth 13) under the same monitors
+        // (incl. the generated grid to depth 12) under the same monitors
         let have: std::collections::BTreeSet<String> = v.iter().map(|s| s.name.clone()).collect();
         v.extend(scenarios::all(false).into_iter().filter(|s| !have.contains(&s.name)));
     }
@@ -194,7 +194,7 @@ pub fn check_sim(prop: &str, tier: &str) -> i32 {
     }
     let journal_rule = std::mem::take(&mut report.rule);
     report.rule = format!(
-        "{journal_rule} Engine A: breadth-first exploration of the closed cluster (real core/reactor/scheduler/HQ state/worker state machines) over scenario families {:?} + the generated grid (depth 8; thorough: every family and the grid to depth 13); a case is a canonical state; every transition is one real handler call; all message interleavings for every placement of the budgeted deviations",
+        "{journal_rule} Engine A: breadth-first exploration of the closed cluster (real core/reactor/scheduler/HQ state/worker state machines) over scenario families {:?} + the generated grid (depth 8; thorough: every family and the grid to depth 12); a case is a canonical state; every transition is one real handler call; all message interleavings for every placement of the budgeted deviations",
         sim_families(prop)
     );
     report.extra.insert("scenarios".into(), json!(per_scenario));
